@@ -432,6 +432,8 @@ class ExprMixin:
         if isinstance(op, ast.Add) and lt == "bytes" and rt == "bytes":
             yield st, o.bytes_(z3.Concat(o.y(l), o.y(r)))
             return
+        if isinstance(op, ast.Mult) and lt in (None, "none") and rt == "int" and cx.spec is not None:
+            lt = "str"      # contract text: the operand is a string wherever the enclosing guard makes the term relevant
         if isinstance(op, ast.Mult) and lt == "str" and rt == "int":
             f = self.w.fun("str_repeat", "str", "int", "str")
             res = f(o.s(l), o.i(r))
@@ -492,7 +494,10 @@ class ExprMixin:
             return o.s(v)
         if conv in "sd" and o.tyof(st, v) == "int":
             return z3.IntToStr(o.i(v)) if False else w.fun("int_text", "int", "str")(o.i(v))
-        return w.fun("text_of_" + conv, "V", "str")(v.e)
+        t = w.fun("text_of_" + conv, "V", "str")(v.e)
+        if conv == "s":
+            st.assume(z3.Implies(w.V.is_str(v.e), t == w.V.s(v.e)))     # str(s) == s
+        return t
 
     # ------------------------------------------------------------------ displays
     def ev_Tuple(self, st, e, cx):
